@@ -6,8 +6,9 @@ import ast
 
 from ..interp import fresh
 from ..loader import AnalysisError
+from ..segments import NarrowGrid
 from ..segments import NINF, PINF, Domain, Iv, SegEval, Vec, contains
-from ..terms import K, ONE, S, T_add, T_sub, ZERO, show, show_norm, subterms
+from ..terms import K, ONE, S, is_num, T_add, T_sub, ZERO, show, show_norm, subterms
 from .c20 import validator_constraints
 from .common import Context, backing_attr
 from .problemterms import ACTION, EVENT, STATE, cfgsym, problem_interp, transition_terms
@@ -100,6 +101,11 @@ def run(ctx: Context, col) -> None:
                     f"successor {succ} is within the state space {st} for every state, action and event" if ok else
                     f"successor {succ} leaves the state space {st}: {why}; the index function would silently clip it onto a different state",
                     text="successor within state space")
+        except NarrowGrid as e:
+            col.add("R14.3", f"{cls.name}.__init__", cls.module.relpath, cls.node.lineno, False, str(e), text="space column ranges")
+            for r_, c_, t_ in (("R14.1", "transition", "successor within state space"), ("R14.2", "state_to_index", "state index")):
+                col.add(r_, f"{cls.name}.{c_}", owner.module.relpath, fn.lineno, False, "cannot hold: the state space itself is wrong (see R14.3)", text=t_)
+            continue
         except AnalysisError as e:
             # a construct outside the symbolic vocabulary (e.g. a periodic layout np.tile(.., m)): decide the
             # instances with the vector-length fields fixed to 1..3 exactly; a failing instance is a violation
@@ -161,10 +167,19 @@ def _index(ctx, cls, I, col):
     why = f"index is {brief(t, 200)}"
     if ok:
         # the product's per-dimension arange(mins[d], maxs[d] + 1) must use the same mins / dims
+        from ..terms import NARROW_INT_DTYPES, indices_space
+        grid = indices_space(sp)
+        if grid is not None and grid[2] not in NARROW_INT_DTYPES:
+            # the dense-grid idiom lists the same rows as the product of arange(M[i], M[i] + D[i])
+            gd, gm, _dt = grid
+            gix = ("sym", "dim#grid")
+            glo = ("elem", gm, (gix,)) if not is_num(gm) else gm
+            sp = ("app", "itertools.product", (("star", ("lam", gix, "dim", ("app", "arange", (glo, T_add(glo, ("elem", gd, (gix,))))))),))
         r = sp[2][0][1] if (sp[0] == "app" and sp[1] == "itertools.product") else None
         body = r[3] if r is not None and r[0] == "lam" else None
         if body is None or body[1] != "arange" or len(body[2]) != 2:
-            ok, why = False, "state space is not a create_range_space product"
+            # another way of listing the states: this rule has no normal form for it, so it gives no verdict
+            raise AnalysisError(f"{cls.name}: the state space is built by a construct outside the rule's vocabulary: {show_norm(sp)[:160]}")
         else:
             ix = r[1]
             lo_d, hi_d = _dist(body[2][0], ix), _dist(body[2][1], ix)
